@@ -122,7 +122,7 @@ def check_when(kind, n, rep, stats):
             good = got[0] == 'ok' and any(got[1] == val(i) and type(got[1]) is type(val(i)) for i in first_ok)
             want = 'value of the first input to succeed %s' % first_ok
           elif len(done) == n:
-            last = [i for i in pre] if not order else [order[-1]]
+            last = [pre[-1]] if not order else [order[-1]]      # (already-complete inputs were failed in input order: the last one failed last)
             good = got[0] == 'fail' and iserr(got[1]) and got[1].i in last
             want = 'failed with the last failure %s' % last
           else:
@@ -191,7 +191,7 @@ def check_repeated_inputs(nmax, rep, stats):
                     good = got[0] == 'ok' and got[1] in [val(i) for i in first_ok]
                     want = 'value of the first input to succeed %r' % first_ok
                   elif len(done) == k:
-                    last = list(pre) if not order else [order[-1]]
+                    last = list(pre) if not order else [order[-1]]      # (with one object at several positions the order of the already-complete failures is not defined)
                     good = got[0] == 'fail' and iserr(got[1]) and got[1].i in last
                     want = 'failed with the last failure %r' % last
                   else:
